@@ -11,7 +11,7 @@
    output or enclosing directory output at any depth) an input of stage b.
    Not in the model: graph, push, fetch (same skeleton in Go; tied by the correspondence check). *)
 From Coq Require Import NArith List Bool Relations.
-From DudV Require Import Base.Bytes Base.Json Model.Fs Model.Cache Model.Stage Model.Index Model.System Proofs.PipelineProofs.
+From DudV Require Import Base.Bytes Base.Json Base.GoPath Model.Fs Model.Cache Model.Stage Model.Index Model.System Proofs.PipelineProofs Proofs.RunProofs Proofs.ScopeProofs.
 Import ListNotations.
 
 (* one `dud run` (a fold of Index.Run over the targets): the execution log has no duplicates,
@@ -102,3 +102,63 @@ Theorem C08_terminates :
     run_targets H exec idx c recursive (S (length idx)) ts init.
 Proof. exact C08_fuel_targets. Qed.
 Print Assumptions C08_terminates.
+
+(* "Commit, checkout, status, push and fetch traverse the same set and leave the stage files and
+   artifacts of every other stage untouched": a commit on explicit targets writes back exactly the
+   stages upstream-or-equal of a target ... *)
+Theorem C08_commit_scope_exact :
+  forall H sems w idx ts copy w' out,
+    w_lock w = false -> load_index (w_index w) (w_stages w) [] = Some idx -> ts <> [] ->
+    step H sems w (CCommit ts copy) = (w', true, out) ->
+    forall s, (forall t, In t ts -> ~ clos_refl_trans bytes (edge idx) s t) ->
+      alookup s (w_stages w') = alookup s (w_stages w) /\ w_index w' = w_index w.
+Proof. exact scope_commit_stages. Qed.
+Print Assumptions C08_commit_scope_exact.
+
+(* ... and leaves the output artifacts of every other stage physically untouched (idx_wf: outputs
+   and plain inputs of different stages do not overlap - C10's invariant; without it the statement
+   is refuted by ScopeProofs.scope_commit_artifacts_needs_wf, which is finding D5 seen from a
+   neighbouring stage) *)
+Theorem C08_commit_others_untouched :
+  forall H sems w idx ts copy w' out,
+    w_lock w = false -> load_index (w_index w) (w_stages w) [] = Some idx -> ts <> [] ->
+    idx_wf idx ->
+    step H sems w (CCommit ts copy) = (w', true, out) ->
+    forall s stg a,
+      (forall t, In t ts -> ~ clos_refl_trans bytes (edge idx) s t) ->
+      alookup s idx = Some stg -> In a (s_outputs stg) ->
+      get (w_root w') (comps (a_path a)) = get (w_root w) (comps (a_path a)).
+Proof. exact scope_commit_artifacts. Qed.
+Print Assumptions C08_commit_others_untouched.
+
+Theorem C08_checkout_others_untouched :
+  forall H sems w idx ts copy single w' out,
+    w_lock w = false -> load_index (w_index w) (w_stages w) [] = Some idx -> ts <> [] ->
+    idx_wf idx ->
+    step H sems w (CCheckout ts copy single) = (w', true, out) ->
+    w_stages w' = w_stages w /\ w_index w' = w_index w /\
+    forall s stg a,
+      (forall t, In t ts ->
+                 ~ (if negb single then clos_refl_trans bytes (edge idx) s t else s = t)) ->
+      alookup s idx = Some stg -> In a (s_outputs stg) ->
+      get (w_root w') (comps (a_path a)) = get (w_root w) (comps (a_path a)).
+Proof. exact scope_checkout. Qed.
+Print Assumptions C08_checkout_others_untouched.
+
+(* status, graph, push and fetch return the very same world, whatever the targets *)
+Theorem C08_readonly_world :
+  forall H sems w cmd,
+    (exists ts, cmd = CStatus ts) \/ (exists ts, cmd = CGraph ts) \/
+    (exists ts single, cmd = CPush ts single) \/ (exists ts single, cmd = CFetch ts single) ->
+    fst (fst (step H sems w cmd)) = w.
+Proof. exact scope_readonly. Qed.
+Print Assumptions C08_readonly_world.
+
+(* the set status reports on is exactly the scope of the targets *)
+Theorem C08_status_scope_exact :
+  forall H sems w idx ts w' out,
+    w_lock w = false -> load_index (w_index w) (w_stages w) [] = Some idx -> ts <> [] ->
+    step H sems w (CStatus ts) = (w', true, OStatus out) ->
+    forall s, alookup s out <> None <-> exists t, In t ts /\ clos_refl_trans bytes (edge idx) s t.
+Proof. exact scope_status_exact. Qed.
+Print Assumptions C08_status_scope_exact.
